@@ -59,7 +59,7 @@ def obsOf (cfg : Cfg) (s : St) : String :=
 
 /-- the index the harness sees for the callee's index `i`: the element handed to `f`, minus 1000 -/
 def obsIdx (wc : WCfg Nat) (i : Nat) : Nat :=
-  match getAt wc.inp (wc.w.readIdx i) with
+  match getAt wc.inp (wc.w.readIdx i wc.inp.length (wc.w.alloc wc.inp.length)) with
   | some a => a - 1000
   | none => 9999
 
